@@ -3,7 +3,7 @@ SPEC = dict(
     level='fault_enumeration',
     design_ref='DESIGN.md section 3, C12',
     rule=("one case = one sender scenario (1-3 senders with distinct source IPAddressAndPort: other IP / other port / other high bits / other "
-          "interface index; PacketTunnelIOGateway or MiniPacketTunnelIOGateway, zlib level 0/1/6/9, with or without slave MessageIOGateway, "
+          "interface index; PacketTunnelIOGateway or MiniPacketTunnelIOGateway, zlib level 0/1/6/9, with or without slave MessageIOGateway (plain, zlib-6 with AreOutgoingMessagesIndependent()=true as MessageIOGateway.h documents for such transports, and plain dependent-stream zlib-6 with one source under the identity script only), "
           "MTU from the minimum 25 resp. 17 (also constructor arguments below it) through min+1, min+2, 64, 1500 and random values, Messages of "
           "12 bytes .. 20xMTU incl. packet-capacity boundaries and runs of equal-sized Messages, message ids moved to random bases and across "
           "2^32, Write() occasionally returning 0) and a family of fault scripts, each run on a fresh receiver: leg 'exh' = exhaustive over a "
@@ -13,7 +13,8 @@ SPEC = dict(
           "byte-identical to a Message sent by the sender whose address it is attributed to; identity script: per sender delivered list == "
           "sent list restricted to the gateway's limits, in order, exactly once.  A case is non-trivial when a Message spans several packets "
           "or a packet carries several chunks and the case has >= 2 packets; distinct = distinct (scenario, seed)"),
-    assumptions=['a Message is identified by its flattened bytes (the _rl source tag a slave gateway adds is compared with the attributed source and removed)',
+    assumptions=['a zlib slave gateway behind a lossy/multi-source tunnel must deflate independent streams (documented in MessageIOGateway.h); a plain zlib slave is judged only where FIFO re-inflation holds',
+                 'a Message is identified by its flattened bytes (the _rl source tag a slave gateway adds is compared with the attributed source and removed)',
                  'two Messages with the same (source address, message id) are never in flight (sender restart on the same address is outside the property)',
                  'message-id wrap-around is produced on the wire by adding a base to every id field (exactly what a sender whose counter was preset '
                  'writes); the guarded setter VerifSetSendMessageIDCounter is used in addition when the tree has it (detected at compile time)',
@@ -29,7 +30,7 @@ SPEC = dict(
     min_stats={'exh': {'fault_scripts': 800000, 'scripts_permutation': 280000, 'scripts_loss_subset': 40000, 'scripts_one_duplicate': 40000,
                        'scripts_product': 480000, 'cases_whole_sequence_exhaustive': 1120, 'cases_mtu_min': 104, 'cases_mtu_min_plus_1': 104,
                        'cases_mtu_min_plus_2': 104, 'cases_mtu_64': 88, 'cases_mtu_1500': 88, 'cases_senders_2': 800, 'cases_senders_3': 800,
-                       'cases_kind_tunnel': 1200, 'cases_kind_mini': 560, 'cases_kind_tunnel+slave': 200, 'cases_kind_mini+slave': 200,
+                       'cases_kind_tunnel': 1200, 'cases_kind_mini': 560, 'cases_kind_tunnel+slave': 150, 'cases_kind_tunnel+slavezlib': 120, 'cases_dependent_zlib_slave_identity_only': 120, 'cases_kind_mini+slave': 200,
                        'cases_mini_zlib': 480, 'mini_packets_deflated': 560, 'mini_messages_fitting_the_mtu_exactly': 200,
                        'mini_cases_with_several_chunks_per_packet': 160, 'tunnel_messages_fragmented': 4000,
                        'tunnel_packets_with_several_chunks': 1120, 'tunnel_messages_ending_exactly_at_packet_end': 1120,
